@@ -550,3 +550,8 @@ MUTANTS = [
     }
     zck->full_hash_digest""", 'expect': None},
 ]
+
+
+# SESSION7 additions to the claim (clauses added in DESIGN section 12)
+CLAIM['technique'] += '; fixed-size array extents (R4.array-extent: transfers, subscripts and helper summaries against sizeof(array), linear values + Fourier-Motzkin, field value sets as bounds, local pointers into arrays followed)'
+CLAIM['text'] += ' C03-j: every transfer to or from a fixed-size array (local, static, file scope), every subscript and every helper that touches bytes behind a pointer parameter stays inside the array on all paths.'
